@@ -141,6 +141,10 @@ func checkBuild(w WS, o BuildOpts, p Prediction, res Result, sb *Sandbox, expect
 	if maxRunning > workers && !timeouts && !cancelled {
 		return pbt.Fail(sig("C03", "too-many-concurrent-commands"), "%d commands were running at once with num_workers=%d%s", maxRunning, workers, tail())
 	}
+	// C06: nothing outside the workspace is written through a link that sits at an output path
+	if v := sb.VictimsIntact(); v != "" {
+		return pbt.Fail(sig("C06", "wrote-outside-workspace"), "%s%s", v, tail())
+	}
 	// exit status
 	if !p.Uncertain {
 		if p.AnyFail && res.Exit == 0 {
